@@ -64,6 +64,15 @@ def check_record(args):
             exp_t[idx], exp_p[idx] = a * fac, b * fac
         scale = max(np.abs(exp_t).max(), np.abs(exp_p).max(), 1e-300)
         out['n'] = int(et.size)
+        # the sum of the magnitudes of the current moments: when the pattern is nothing but the rounding residue of
+        # cancelling moments (coincident wires carrying opposite currents) "the pattern maximum" is no scale and dB
+        # values are noise
+        one = L.G0 * fac * sum(abs(I[q]) * k * sum(p['lens']) / 2 for q, p in enumerate(geo.pulses))
+        if scale < 1e-9 * one:
+            if max(np.abs(et).max(), np.abs(ep).max()) > 1e-9 * one:
+                out['mism'].append(dict(what='cancelling-pulses-radiate', err=float(max(np.abs(et).max(), np.abs(ep).max()) / one)))
+            out['cancelled'] = True
+            return out
         if np.abs(et - exp_t).max() > 1e-9 * scale:
             out['mism'].append(dict(what='e_theta', err=float(np.abs(et - exp_t).max() / scale),
                                     custom_power=pw is not None))
@@ -105,16 +114,63 @@ def check_record(args):
         flat = g2.reshape(-1, 3) if g2.shape[0] * g2.shape[1] == 6 else g2
         # rows with equal zenith, azimuth 17 and 377
         gz = g2 if g2.shape[0] == 3 else np.swapaxes(g2, 0, 1)
-        if np.abs(gz[:, 0, :] - gz[:, 1, :]).max() > 1e-9:
+        # compared as power ratios against the strongest entry: a polarisation that is analytically absent is
+        # printed as -999 or as the dB value of a rounding residue (about -300), depending on sin(17) vs sin(377)
+        lz = 10 ** (np.maximum(gz, -999.0) / 10)
+        if np.abs(lz[:, 0, :] - lz[:, 1, :]).max() > 1e-9 * max(lz.max(), 1e-300):
             out['mism'].append(dict(what='rows-360-apart-differ'))
         m.compute_far_field(Angle(0, 0, 1), Angle(0, 47, 7))
         g3 = np.array(m.far_field.gain).reshape(-1, 3)[:, 2]
-        if np.abs(g3 - g3[0]).max() > 1e-9:
+        l3 = 10 ** (np.maximum(g3, -999.0) / 10)
+        if np.abs(l3 - l3[0]).max() > 1e-9 * max(l3.max(), 1e-300):
             out['mism'].append(dict(what='zenith-depends-on-azimuth'))
+        # ---- the same antenna SOLVED with two generators 90 degrees apart (one of them usually takes power
+        # out of the structure): the dBi table is the radiation sum of the solved currents over the real input
+        # power sum(Re(V I*) / 2), computed here from the generator voltages and the solved pulse currents
+        if N >= 2 and rnd.random() < 0.3:
+            solved(rec, ground, rnd, f, unit, k, out)
     except Exception as e:      # noqa
         import traceback
         out['exc'] = repr(e) + traceback.format_exc()[-600:]
     return out
+
+
+def solved(rec, ground, rnd, f, unit, k, out):
+    from mininec.mininec import Excitation
+    m, geo = L.build_pair(rec, rnd, ground, f, unit, 0.001)
+    N = len(m.pulses)
+    a, b = rnd.sample(range(N), 2)
+    volts = {a: 1 + 0j, b: complex(0, rnd.choice([1.0, -0.6]))}
+    for q, v in volts.items():
+        m.register_source(Excitation(v), q)
+    try:
+        m.compute()
+    except np.linalg.LinAlgError:
+        return
+    I = np.array(m.current)
+    if not np.isfinite(I).all():
+        return
+    pin = sum(0.5 * (v * np.conj(I[q])).real for q, v in volts.items())
+    parts = [0.5 * (v * np.conj(I[q])).real for q, v in volts.items()]
+    if pin <= 1e-9 * sum(abs(x) for x in parts):
+        return
+    out['solved'] = dict(absorbing=min(parts) < 0)
+    zen, azi = Angle(10, 35, 3 if ground else 5), Angle(20, 75, 4)
+    m.compute_far_field(zen, azi)
+    ff = m.far_field
+    g = np.array(ff.gain)
+    zz, aa = np.array(ff.zen), np.array(ff.azi)
+    lin = np.zeros(zz.shape + (3,))
+    for idx in np.ndindex(zz.shape):
+        et, ep = geo.far_E(I, k, zz[idx], aa[idx])
+        lin[idx] = (abs(et) ** 2, abs(ep) ** 2, abs(et) ** 2 + abs(ep) ** 2)
+    lin /= 59.96 * pin
+    if g.shape != lin.shape:
+        g = np.swapaxes(g, 0, 1)
+    big = lin > 1e-6 * lin.max()
+    dev = np.abs(g[big] - 10 * np.log10(lin[big])).max(initial=0)
+    if dev > 2e-3:
+        out['mism'].append(dict(what='solved-gain-vs-input-power', err=float(dev), absorbing=bool(min(parts) < 0)))
 
 
 def jobs(chk, tier):
@@ -136,6 +192,12 @@ def run(tier):
         chk.case(dict(i=r['input'], g=g), len(kinds) >= 2 or len(r['input']) >= 2,
                  sample=dict(input=r['input'], ground=g, pulse_kinds=sorted(kinds)), n=max(1, o['n']))
         chk.traces += 1
+        if o.get('solved'):
+            chk.cov['solved_models'] = chk.cov.get('solved_models', 0) + 1
+            chk.cov['solved_models_with_absorbing_generator'] = chk.cov.get('solved_models_with_absorbing_generator', 0) \
+                + int(o['solved']['absorbing'])
+        if o.get('cancelled'):
+            chk.cov['patterns_cancelled_to_rounding'] = chk.cov.get('patterns_cancelled_to_rounding', 0) + 1
         if o['exc']:
             chk.violation(dict(kind='exception', exc=o['exc'].split('(')[0]),
                           dict(input=r['input'], ground=g, exc=o['exc'], spec=r))
